@@ -24,9 +24,9 @@ import (
 //	rmfootnote S:[id]   RemoveFootnote(id)
 //	rmendnote  S:[id]   RemoveEndnote(id)
 //
-// Further local kinds: openforeign / restyle / rmstyle (styles.go), mdc (converter.go).
+// Further local kinds: openforeign / restyle / rmstyle (styles.go), mdc (converter.go), bulk (bulk.go), tplc / tpldc / failcall (engine.go).
 var localKinds = map[string]bool{"swap": true, "notecount": true, "rmfootnote": true, "rmendnote": true,
-	"openforeign": true, "restyle": true, "rmstyle": true, "mdc": true}
+	"openforeign": true, "restyle": true, "rmstyle": true, "mdc": true, "bulk": true, "tplc": true, "tpldc": true, "failcall": true}
 
 func hasKind(h []ops.Op, kind string) bool {
 	for _, o := range h {
@@ -62,6 +62,12 @@ func (r *docRun) doLocal(o ops.Op) (extra string, err error) {
 		return r.doStyleOp(o)
 	case "mdc":
 		return r.doMDC(o)
+	case "bulk":
+		return r.doBulk(o)
+	case "tplc", "tpldc":
+		return r.doTplPooled(o)
+	case "failcall":
+		return r.doFailCall(o)
 	case "swap":
 		if len(x.Side) == 0 {
 			return "none", nil
